@@ -46,7 +46,7 @@ PROPS = {
     },
     "C03": {
         "suites": [("gw", "order"), ("gw", "refs"), ("gw", "reset"), ("gw", "access"), ("gw", "query")],
-        "theorems_carry": "queue discipline: processed ++ waiting = received for every interleaving of events, queueing starts and flushes (incl. re-queueing in the middle of a flush); mailbox FIFO and lock exclusion; what is delivered after the snapshot is a contiguous suffix of the emitted stream",
+        "theorems_carry": "queue discipline: processed ++ waiting = received for every interleaving of events, queueing starts and flushes (incl. re-queueing in the middle of a flush); mailbox FIFO and lock exclusion, and over whole runs of a mailbox (any interleaving of enqueues, locks, unlock items, worker steps) ran ++ waiting = initial ++ enqueued in order (mailbox_run_in_order); what is delivered after the snapshot is a contiguous suffix of the emitted stream",
         "correspondence_only": "that the gateway's queues are used as the abstract discipline says: lockstep + sequence-number monitor on custom events",
         "assumptions": ["abstract queue FSM mirrors Subscription.Event/queueEvents/unqueueEvents"],
     },
@@ -94,7 +94,7 @@ PROPS = {
     },
     "C13": {
         "suites": [("gw", "query")],
-        "theorems_carry": "lock exclusion (no normal item while locked), one slot per answered query request, lock clears exactly when all slots are used, FIFO afterwards; the alias index of an entry (the pure functions the model's getResourceSubscription / processGetResponse / unregister are built from): after a get response names the normalised query, the raw query and the normalised one resolve to the same cached resource, other queries are unaffected, a query that resolves to nothing gets its own resource; a query event takes one lock slot per cached query and asks exactly the loaded ones, each once with its own normalised query (query_event_plan)",
+        "theorems_carry": "lock exclusion (no normal item while locked), one slot per answered query request, lock clears exactly when all slots are used, FIFO afterwards; over whole runs of the mailbox (the model's own Entry.lockFor/push/pushUnlock and mbNext): for every interleaving of enqueued items, arriving answers and worker steps with fewer answers than query requests the lock is held and no normal item has run (locked_until_every_answer), and once every answer is there one worker step per answer ends the lock with the queue untouched (all_answers_end_the_lock); the alias index of an entry (the pure functions the model's getResourceSubscription / processGetResponse / unregister are built from): after a get response names the normalised query, the raw query and the normalised one resolve to the same cached resource, other queries are unaffected, a query that resolves to nothing gets its own resource; a query event takes one lock slot per cached query and asks exactly the loaded ones, each once with its own normalised query (query_event_plan)",
         "correspondence_only": "one request per cached normalised query, answers applied to that query's resource only, alias sharing: lockstep (queries/links/lock in every snapshot). Known finding D1.",
         "assumptions": ["one connection never holds two aliases of one normalised query (Go map order)"],
     },
